@@ -1,22 +1,32 @@
 import os, sys, json
 sys.path.insert(0, os.path.dirname(__file__))
 import alloc_common as ac
+import ctrl_common as cc
 
-SIGS = {'alloc-exclusivity', 'alloc-ghost-or-lost', 'alloc-checksharing-vs-statement'}
+ALLOC_SIGS = {'alloc-exclusivity', 'alloc-ghost-or-lost', 'alloc-checksharing-vs-statement'}
+CTRL_SIGS = {'status-exclusivity','backendkey-local-empty-selector-equals-cluster'}
 
 def run(ctx):
-    ctx.coq_build(["Properties/C01.v"] + ac.COQ_FILES)
-    ctx.coq_theorems("Properties/C01.v", ac.CLOSURE + ["Proofs/AllocP.v"])
-    cases, st, mism, search = ac.run_alloc(ctx, SIGS)
-    nsteps = sum(len(c["in"]) for c in cases)
-    distinct = len({json.dumps(c["in"], sort_keys=True) for c in cases if len(c["in"]) >= 3})
-    ctx.cov["correspondence"] = {"histories": len(cases), "operations": nsteps, "mismatches": len(mism), "generator_counters": st}
+    ctx.coq_build(["Properties/C01.v"] + ac.COQ_FILES + cc.COQ_FILES)
+    ctx.coq_theorems("Properties/C01.v", sorted(set(ac.CLOSURE + ["Proofs/AllocP.v"] + cc.CLOSURE)))
+    acases, ast, amism, asearch = ac.run_alloc(ctx, ALLOC_SIGS, n_quick=100)
+    ccases, cst, cmism, csearch = cc.run_ctrl(ctx, CTRL_SIGS, n_quick=120)
+    def search():
+        asearch()
+        if not ctx.violations:
+            csearch()
+    nsteps = sum(len(c["in"]) for c in acases) + sum(len(c["in"]) for c in ccases)
+    distinct = len({json.dumps(c["in"], sort_keys=True) for c in acases if len(c["in"]) >= 3}) + \
+               len({json.dumps([{k: v for k, v in e.items() if k != "obs"} for e in c["in"]], sort_keys=True) for c in ccases if len(c["in"]) >= 5})
+    ctx.cov["correspondence"] = {"allocator_histories": len(acases), "controller_histories": len(ccases), "operations_and_events": nsteps,
+                                 "mismatches": len(amism) + len(cmism), "allocator_counters": ast, "controller_counters": cst}
     ctx.trusted += ["model covers internal/allocator/allocator.go: Assign, Unassign, Allocate, AllocateFromPool, AllocateFromPoolForAdditionalFamily, SetPools, checkSharing, sharingOK, poolFor, isPoolCompatibleWithService, pinnedPoolsForService, findBestPoolForService, getFreeIPsFromPool/getIPFromCIDR, poolCount, updatePoolStats, CountersForPool; allocation.go selectIPsForFamilyAndPolicy",
                     "the allocator's derived maps (sharingKeyForIP, portsInUse, servicesOnIP, poolIP*InUse) are modelled as functions of the service->allocation map; their agreement with the Go maps is checked after every operation by checkSharing probes and counters (correspondence), not proved",
                     "checked nondeterminism: allocation results are taken from the implementation and validated by allocate_spec/from_pool_spec/additional_spec; sort.Slice in sortPools and map iteration order are not modelled",
                     "domain: services have >= 1 port (API server rule); pools pairwise disjoint (C08)"]
-    ctx.finish(len(cases), distinct,
-               "random histories (10-35 operations: Assign/Unassign/Allocate/AllocateFromPool/Additional/SetPools incl. rename/regroup) over 1-4 small pools and 2-5 services, "
-               "plus pool layouts with large prefixes for the counters; after every operation results, IPs/Pool of all services, counters of all pools and 6 checkSharing probes are compared "
-               "with the model and the property oracles are evaluated on the implementation; non-trivial = history with >= 3 operations; distinct by content",
-               [c["in"][:4] for c in cases[:2]], search=search)
+    ctx.trusted += cc.TRUST
+    ctx.finish(len(acases) + len(ccases), distinct,
+               "allocator level: random operation histories on a real Allocator (results, holdings, counters and checkSharing probes compared after every operation); "
+               "controller level: random event histories through the real ServiceReconciler/controller against a fake API server with failing writes and restarts, compared event by event; "
+               "property oracles on the implementation after every operation / at every quiescent point; non-trivial = >= 3 operations resp. >= 5 events; distinct by content",
+               [c["in"][:3] for c in acases[:1]] + [[{k: v for k, v in e.items() if k != "obs"} for e in c["in"][:4]] for c in ccases[:1]], search=search)
